@@ -21,11 +21,12 @@ PROP = {'lean_props': ['Comrak.Props.C03'],
                   'not vendored in this tree, so the reading was from memory of the published specification',
                   'Doc.ok (Comrak/Canon/Ok.lean) is an executable side condition; that it really excludes every ambiguity is what K tests '
                   '(write_lines_wf is not proved)'],
- 'assumptions': ['default options, no extensions (stage 1 of the class needs none)']}
+ 'assumptions': ['default options plus extension.strikethrough (needed by ~~..~~); HTML blocks, tables, task items, footnotes are not in the class']}
 
-TEXT = {'text': 'Proof + correspondence. Lean defines an inductive type Doc of canonical Markdown documents (paragraph, ATX heading, thematic '
-         'break, fenced code, block quote, tight/loose bullet and ordered lists of any nesting; text with backslash escapes, named/numeric '
-         'character references and multi-byte characters, code spans, emphasis, strong, inline links with titles, images, autolinks, hard and '
+TEXT = {'text': 'Proof + correspondence. Lean defines an inductive type Doc of canonical Markdown documents (paragraph, ATX and setext heading, thematic '
+         'break, fenced and indented code, block quote, tight/loose bullet and ordered lists of any nesting; text with backslash escapes, '
+         'named/numeric character references and multi-byte characters, code spans, emphasis, strong, GFM strikethrough, inline links with titles '
+         'and reference links (definitions before or after use, label case variants, shadowed duplicate definitions), images, autolinks, hard and '
          'soft breaks), an independent canonical writer Doc.write, the comrak AST the document spells (Doc.toTree), an independent reference '
          'renderer Doc.refHtml written from the specification, and a decidable side condition Doc.ok that makes the spelling unambiguous. '
          "Theorem refHtml_eq_renderHtml_canon: for EVERY d with Doc.ok d (any depth, tightness, start number, fence length) the complete model of "
